@@ -22,9 +22,9 @@ REGISTRY = {
                       'CRLF-terminated line or raise Error; splitLines and Line._on_read obey the stash discipline for every '
                       'input; segmentation invariance then follows by a Lean-checked lemma from the re.split concatenation axiom.',
         'level_note': 'trusted: re.split axiom (validated only up to a bound against CPython), str.join containment lemma, '
-                      'str.encode; the parsemsg round trip has only a bounded stand-in (labelled, not counted as proved).',
+                      'str.encode, str.split() as the uninterpreted word list; parsemsg is proved exact per call, the round trip parsemsg(bytes(m)) has only a bounded stand-in (labelled, not counted as proved).',
         'explanation': 'contracts on Message and the line splitter discharged by z3/cvc5; Lean lemma for all segmentations',
-        'not_decided': ['parsemsg(bytes(m)) round trip: bounded enumeration only'],
+        'not_decided': ['parsemsg(bytes(m)) round trip over arbitrarily long argument lists: bounded enumeration only (parsemsg itself is exact per call: under contract since round 5)'],
     },
     'C20': {
         'modules': ['contracts.auth'], 'level': 'proof',
